@@ -88,9 +88,9 @@ var c18CycleRe = regexp.MustCompile(`detected cycle is (.*)$`)
 var c18DangRe = regexp.MustCompile(`^job "([^"]*)" needs job "([^"]*)" which does not exist in this workflow$`)
 
 type c18Emit struct {
-	src     string
-	keyPos  []Pos // per job index
-	nameOf  []string
+	src    string
+	keyPos []Pos // per job index
+	nameOf []string
 }
 
 func c18Render(r *Rand, g *c18Graph, flowStyle int) c18Emit {
@@ -475,7 +475,7 @@ func runC18(r *Run) {
 			n := c.R.Range(6, 40)
 			g := &c18Graph{n: n, adj: make([][]int, n), dang: make([][]string, n)}
 			perm := c.R.Perm(n) // topological order for the acyclic part
-			back := c.R.Intn(3)  // number of back edges (0 = acyclic)
+			back := c.R.Intn(3) // number of back edges (0 = acyclic)
 			dens := c.R.Range(1, 4)
 			for a := 0; a < n; a++ {
 				for bb := a + 1; bb < n; bb++ {
